@@ -83,7 +83,7 @@ def obligations(tier: str) -> list[dict]:
 
     wmax = 4 if thorough else 3
     smax = 4 if thorough else 3
-    T = 2400 if thorough else 400
+    T = 2400 if thorough else 900
 
     def oc(pat: str, nreg: int = 3, w: int | None = None) -> dict:
         return {'nreg': nreg, 'pattern': pat, 'wmax': w or (wmax if pat.count('W') < 3 else wmax - 1)}
@@ -144,15 +144,15 @@ def obligations(tier: str) -> list[dict]:
 
     ARGS = [['x0'], ['-', 'x0'], ['x0', '-', 'x1'], ['x0', '*', 'x1'], ['x0', '/', '3']]
     if not thorough:
-        X('base', 1, 7, 400)
-        X('fn-sin+fn-cos+fn-tan+fn-ln+fn-mixed', 1, 7, 400)
-        X('fn-exp', 1, 7, 400)
-        X('fn-sqrt', 1, 7, 400)
-        X('leaf', 1, 5, 400)
-        P('one', 1, 5, 400, args=ARGS)
-        P('two', 1, 5, 400)
-        P('ugate', 1, 4, 400)
-        P('nested', 1, 3, 400)
+        X('base', 1, 7, 900)
+        X('fn-sin+fn-cos+fn-tan+fn-ln+fn-mixed', 1, 7, 900)
+        X('fn-exp', 1, 7, 900)
+        X('fn-sqrt', 1, 7, 900)
+        X('leaf', 1, 5, 900)
+        P('one', 1, 5, 900, args=ARGS)
+        P('two', 1, 5, 900)
+        P('ugate', 1, 4, 900)
+        P('nested', 1, 3, 900)
     else:
         X('base', 1, 8, 1500)
         X('base', 9, 9, 1500)
